@@ -5,7 +5,7 @@ from .. import e1, equiv, gen, harness, ic10, comp, probes
 from . import base
 
 PROP = "C01"
-WITNESSES = ["chained_comparison", "for_var_after_loop", "for_target_reuse", "name_alias", "jump_table", "for_continue", "break_nested", "break_in_forlist", "list1_dynamic", "forlist_nested", "forlist_call", "inline_arg_alias", "if_not_constant",
+WITNESSES = ["chained_comparison", "for_var_after_loop", "named_batch_slot_store", "for_target_reuse", "name_alias", "jump_table", "for_continue", "break_nested", "break_in_forlist", "list1_dynamic", "forlist_nested", "forlist_call", "inline_arg_alias", "if_not_constant",
              "ref_id_register", "loop_bound_mutation"]
 
 TWIN_A = base.witness.HDR + """
